@@ -1063,14 +1063,19 @@ func (b *broker) subEventHistory(msg *wamp.Invocation) wamp.Message {
 		}
 	}
 
-	limit, ok = msg.ArgumentsKw["limit"].(int)
-	if ok && limit < 1 {
-		return &wamp.Error{
-			Type:    msg.MessageType(),
-			Request: msg.Request,
-			Details: wamp.Dict{},
-			Error:   wamp.ErrInvalidArgument,
+	// Numeric arguments are read with the extended type assertions, since
+	// their Go type depends on the client's transport and serialization.
+	if limitOp, ok := msg.ArgumentsKw["limit"]; ok {
+		limit64, ok := wamp.AsInt64(limitOp)
+		if !ok || limit64 < 1 {
+			return &wamp.Error{
+				Type:    msg.MessageType(),
+				Request: msg.Request,
+				Details: wamp.Dict{},
+				Error:   wamp.ErrInvalidArgument,
+			}
 		}
+		limit = int(limit64)
 	}
 
 	reverseOp, ok := msg.ArgumentsKw["reverse"]
@@ -1145,8 +1150,8 @@ func (b *broker) subEventHistory(msg *wamp.Invocation) wamp.Message {
 
 	fromPubOp, ok := msg.ArgumentsKw["from_publication"]
 	if ok {
-		fromPub, ok = fromPubOp.(wamp.ID)
-		if !ok || fromPub < 1 {
+		fromPub, ok = wamp.AsID(fromPubOp)
+		if !ok {
 			return &wamp.Error{
 				Type:    msg.MessageType(),
 				Request: msg.Request,
@@ -1159,8 +1164,8 @@ func (b *broker) subEventHistory(msg *wamp.Invocation) wamp.Message {
 
 	afterPubOp, ok := msg.ArgumentsKw["after_publication"]
 	if ok {
-		afterPub, ok = afterPubOp.(wamp.ID)
-		if !ok || afterPub < 1 {
+		afterPub, ok = wamp.AsID(afterPubOp)
+		if !ok {
 			return &wamp.Error{
 				Type:    msg.MessageType(),
 				Request: msg.Request,
@@ -1172,8 +1177,8 @@ func (b *broker) subEventHistory(msg *wamp.Invocation) wamp.Message {
 
 	beforePubOp, ok := msg.ArgumentsKw["before_publication"]
 	if ok {
-		beforePub, ok = beforePubOp.(wamp.ID)
-		if !ok || beforePub < 1 {
+		beforePub, ok = wamp.AsID(beforePubOp)
+		if !ok {
 			return &wamp.Error{
 				Type:    msg.MessageType(),
 				Request: msg.Request,
@@ -1185,8 +1190,8 @@ func (b *broker) subEventHistory(msg *wamp.Invocation) wamp.Message {
 
 	untilPubOp, ok := msg.ArgumentsKw["until_publication"]
 	if ok {
-		untilPub, ok = untilPubOp.(wamp.ID)
-		if !ok || untilPub < 1 {
+		untilPub, ok = wamp.AsID(untilPubOp)
+		if !ok {
 			return &wamp.Error{
 				Type:    msg.MessageType(),
 				Request: msg.Request,
@@ -1260,15 +1265,16 @@ func (b *broker) subEventHistory(msg *wamp.Invocation) wamp.Message {
 			}
 		}
 
+		// Keep the most recent events, then put them in the requested order.
+		if limit > 0 {
+			start := max(len(filteredEvents)-limit, 0)
+			filteredEvents = filteredEvents[start:]
+		}
+
 		if reverse {
 			for i, j := 0, len(filteredEvents)-1; i < j; i, j = i+1, j-1 {
 				filteredEvents[i], filteredEvents[j] = filteredEvents[j], filteredEvents[i]
 			}
-		}
-
-		if limit > 0 {
-			start := max(len(filteredEvents)-limit, 0)
-			filteredEvents = filteredEvents[start:]
 		}
 
 		events, _ = wamp.AsList(filteredEvents)
